@@ -13,10 +13,14 @@
    terminator, every parameter counted (also those that do not fit), entry j = parameter j (extents,
    known-parameter kind of its name), kind mask = union of the kinds.  Capacity independence: C13;
    crash freedom: C04; resumption: C02.
-   PARTIAL: quoted values with escapes, white space and folds around "=" and the separators, empty
-   list items, the white-space-then-token terminator, and the converse direction (accepted => of
-   that shape) are not proved: render/parse oracle + correspondence (chunked too). *)
-From Sipsp Require Import Harness Misc HdrSpec TokSpec UListSpec UHListSpec TokEoi TokItem UListGen TokLead.
+   The general item (TokItem.v, UListGen.v, TokLead.v): quoted values with escapes, white space and folds around "=" and
+   the separators, every way an item can end, empty list items.  The converse for the characters (TokConv.v,
+   C17_reported_name_and_token_value_use_only_allowed_characters): for every input, flag set and feeding schedule, whatever an
+   accepting call (ok, more values, end of header) reports as the name - and as the value unless the value starts with a double
+   quote - consists of allowed parameter characters that are not white space.
+   PARTIAL: the full converse (accepted => the input has the shape of the grammar, including the interior of quoted values and the
+   white space between the parts) is not proved: render/parse oracle + correspondence (chunked too). *)
+From Sipsp Require Import Harness Misc HdrSpec TokSpec UListSpec UHListSpec TokEoi TokItem UListGen TokLead TokConv.
 Theorem C17_character_set : forall up c, tok_allowed up c = true <-> In c (allowed_set up).
 Proof. exact tok_allowed_spec. Qed.
 Theorem C17_bad_byte_in_name_rejected_there : forall f (rest : list byte) i s c,
@@ -299,6 +303,41 @@ Proof.
   apply lead_sep. apply lead_sep. apply (lead_ws_sep 0 [32] []); [|constructor].
   apply wsrun_blanks; [discriminate|repeat constructor].
 Qed.
+(* ---- the converse for the characters: every input, every flag set, every feeding schedule ------------------------------------------------ *)
+Theorem C17_reported_name_and_token_value_use_only_allowed_characters : forall flags buf offs s o e s',
+  tp_fed flags buf offs s -> parse_tokparam flags buf offs s = Done o e s' -> e = EOk \/ e = EMoreValues \/ e = EEOH ->
+  reported_ok flags buf s'.
+Proof. exact tokparam_reported_chars. Qed.
+Theorem C17_reported_ok_means : forall flags buf s, reported_ok flags buf s <->
+  (forall j, po (tp_name s) <= j -> j < po (tp_name s) + pl (tp_name s) ->
+     exists c, nth_error buf (N.to_nat j) = Some c /\ tok_allowed (tf_uriparam (tp_decode flags)) c = true /\ is_ws c = false) /\
+  (pl (tp_val s) = 0 \/ nth_error buf (N.to_nat (po (tp_val s))) = Some 34 \/
+   forall j, po (tp_val s) <= j -> j < po (tp_val s) + pl (tp_val s) ->
+     exists c, nth_error buf (N.to_nat j) = Some c /\ tok_allowed (tf_uriparam (tp_decode flags)) c = true /\ is_ws c = false).
+Proof. intros flags buf s. reflexivity. Qed.
+(* a feeding schedule is a chain of calls that each asked for more bytes, on buffers that agree on the bytes already read *)
+Theorem C17_tp_fed_means : forall flags buf offs s, tp_fed flags buf offs s <->
+  (s = tokparam0 /\ offs <= nnat (length buf)) \/
+  (exists buf0 offs0 s0, tp_fed flags buf0 offs0 s0 /\ parse_tokparam flags buf0 offs0 s0 = Done offs EMore s /\
+     firstn (N.to_nat offs) buf = firstn (N.to_nat offs) buf0 /\ offs <= nnat (length buf)).
+Proof.
+  intros flags buf offs s. split.
+  - intros H. destruct H as [buf offs Ho|buf0 offs0 s0 o s' buf' Hf Hp Hpre Ho]; [left; split; [reflexivity|exact Ho]|].
+    right. exists buf0, offs0, s0. repeat split; assumption.
+  - intros [[-> Ho]|(buf0 & offs0 & s0 & Hf & Hp & Hpre & Ho)]; [apply tp_fed0; exact Ho|]. exact (tp_fed1 flags buf0 offs0 s0 offs s buf Hf Hp Hpre Ho).
+Qed.
+(* satisfiable: "ab=c" then, on a longer buffer, "ab=cd;e" - fed in two pieces; the second call accepts *)
+Example C17_reported_example :
+  parse_tokparam 0 [97;98;61;99] 0 tokparam0 = Done 4 EMore (mktokparam (mkpf 0 3) (mkpf 0 2) (mkpf 3 0) PVal) /\
+  tp_fed 0 [97;98;61;99;100;59;101] 4 (mktokparam (mkpf 0 3) (mkpf 0 2) (mkpf 3 0) PVal) /\
+  parse_tokparam 0 [97;98;61;99;100;59;101] 4 (mktokparam (mkpf 0 3) (mkpf 0 2) (mkpf 3 0) PVal)
+  = Done 6 EMoreValues (mktokparam (mkpf 0 5) (mkpf 0 2) (mkpf 3 2) PInitNxtVal).
+Proof.
+  assert (H : parse_tokparam 0 [97;98;61;99] 0 tokparam0 = Done 4 EMore (mktokparam (mkpf 0 3) (mkpf 0 2) (mkpf 3 0) PVal)) by (vm_compute; reflexivity).
+  split; [exact H|]. split; [|vm_compute; reflexivity].
+  apply (tp_fed1 0 [97;98;61;99] 0 tokparam0 4 _ _ (tp_fed0 0 _ 0 ltac:(unfold nnat; cbn [length]; lia)) H); [reflexivity|unfold nnat; cbn [length]; lia].
+Qed.
+Print Assumptions C17_reported_name_and_token_value_use_only_allowed_characters.
 Print Assumptions C17_param_then_next_param_at_any_offset.
 Print Assumptions C17_empty_items_and_leading_white_space_skipped.
 Print Assumptions C17_uri_parameter_list_general_items.
